@@ -19,7 +19,7 @@ def check(run, tier):
     edges = E.emit_edges(run, "MC_C16", "MenuC16", 7, 4, **kw)
     run.extra["matrix_cells"] = len(edges)
     traces = E.replay_edges(run, edges)
-    n, m = (32, 40) if quick else (320, 80)
+    n, m = (64, 50) if quick else (320, 80)
     traces += E.random_histories(run, n, m, common.SEED, genkw={
         "users": ("alice", "bob"), "versions": G.VERSIONS + G.BADVERSIONS,
         "weights": {"Query": 3, "DiscoverVersions": 3, "GetAttributes": 3, "GetAttributeList": 3, "Attr": 2}})
